@@ -45,6 +45,10 @@ func (t *Transpose) Init(n *onnx.NodeProto) error {
 
 // Apply applies the transpose operator.
 func (t *Transpose) Apply(inputs []tensor.Tensor) ([]tensor.Tensor, error) {
+	if len(t.perm) > 0 && !isPermutation(t.perm, len(inputs[0].Shape())) {
+		return nil, ops.ErrInvalidAttribute("perm", t)
+	}
+
 	out, err := tensor.Transpose(inputs[0], t.perm...)
 	if err != nil {
 		return nil, err
@@ -77,4 +81,23 @@ func (t *Transpose) GetInputTypeConstraints() [][]tensor.Dtype {
 // String implements the stringer interface, and can be used to format errors or messages.
 func (t *Transpose) String() string {
 	return "transpose operator"
+}
+
+// isPermutation reports whether perm is a permutation of 0..rank-1.
+func isPermutation(perm []int, rank int) bool {
+	if len(perm) != rank {
+		return false
+	}
+
+	seen := make([]bool, rank)
+
+	for _, axis := range perm {
+		if axis < 0 || axis >= rank || seen[axis] {
+			return false
+		}
+
+		seen[axis] = true
+	}
+
+	return true
 }
